@@ -69,6 +69,8 @@ func (fakeServer) RelayInventory(*msg.InvVect, interface{}) {}
 func (fakeServer) IsCurrent() bool                          { return true }
 func (fakeServer) ConnectedCount() int32                    { return 0 }
 
+var rigReuse = 25 // 100 in the thorough tier
+
 type rig struct {
 	n     *node.Node
 	coins []node.Coin
@@ -404,9 +406,29 @@ func TestServiceLevelGrid(t *testing.T) {
 // generated levels with generated parameter forms (named / positional / batch /
 // empty / junk); forbidden combinations are drawn three times out of four.
 func TestServiceLevels(t *testing.T) {
+	// The node is shared by up to rigReuse consecutive cases: every verdict compares the state
+	// right before and after one call, so it does not depend on what earlier cases left behind,
+	// and a closed mini-node keeps ~4 MB and 8 goroutines alive (goleveldb), which would
+	// otherwise grow a thorough shard to many GB.
+	var shared *rig
+	uses := 0
+	if vk.Thorough() {
+		rigReuse = 100
+	}
+	defer func() {
+		if shared != nil {
+			shared.close()
+		}
+	}()
 	rapid.Check(t, func(t *rapid.T) {
-		r := newRig(t)
-		defer r.close()
+		if shared == nil || uses >= rigReuse {
+			if shared != nil {
+				shared.close()
+			}
+			shared, uses = newRig(t), 0
+		}
+		uses++
+		r := shared
 		var names []string
 		for m := range privileged {
 			names = append(names, m)
